@@ -218,7 +218,19 @@ class ParseContext(ParserEngine):
 
     @contextmanager
     def group(self) -> Any:
-        yield
+        # a scope of its own, so that a name bound to the group gets the value of
+        # the whole group (as grammar models do) and not just its last element;
+        # the group stays transparent to cuts
+        self.states.push()
+        try:
+            yield
+            cutseen = self.state.cutseen
+            self.states.merge()
+            self.state.cutseen |= cutseen
+        except FailedParse:
+            cutseen = self.states.undo().cutseen
+            self.state.cutseen |= cutseen
+            raise
 
     _group = group
 
